@@ -1389,6 +1389,24 @@ func runC11(c *Ctx) {
 	okE := mk != nil
 	whyE := "LatencyMetrics.init does not create the t-digest estimator"
 	if okE {
+		// what is stored into the estimator field is that t-digest adapter itself, not a wrapper around it
+		direct := false
+		for _, r := range refs(mk) {
+			if mi, isMI := r.(*ssa.MakeInterface); isMI {
+				for _, rr := range refs(mi) {
+					if st, isSt := rr.(*ssa.Store); isSt && st.Val == ssa.Value(mi) {
+						if fa, isFA := st.Addr.(*ssa.FieldAddr); isFA && fieldName(fa.X.Type(), fa.Field) == "estimator" {
+							direct = true
+						}
+					}
+				}
+			}
+		}
+		if !direct {
+			okE, whyE = false, "the t-digest is wrapped in another estimator before it is installed (a second quantile algorithm in front of it is not covered by the rank-error argument)"
+		}
+	}
+	if okE {
 		cv, isC := mk.Call.Args[0].(*ssa.Const)
 		comp := 0.0
 		if isC && cv.Value != nil {
